@@ -47,7 +47,7 @@ manifest = {
     "setup_cmd": "./setup.sh",
     "hooks": {
         "guard": "verif",
-        "enable": "no committed hooks: every check copies /repo's working tree to a scratch directory, instruments the copy (bin/instrument: a yield call before every statement of package cose, every range-over-map loop routed through the simulator, every time.Now/Since/Until routed to the simulated clock) and builds the worker against it with -tags verifinstr; the copy is deleted afterwards",
+        "enable": "no committed hooks: every check copies /repo's working tree to a scratch directory, instruments the copy (bin/instrument: a yield call before every statement of package cose, every range-over-map loop routed through the simulator, every time.Now/Since/Until and os.Getenv/LookupEnv routed to the simulated clock and environment) and builds the worker against it with -tags verifinstr; the copy is deleted afterwards",
         "baseline_off_cmd": "cd /repo && go test -vet=off -count=1 -timeout 25m ./...",
         "source_commits": [],
         "add_only": True,
